@@ -52,11 +52,26 @@ type RB struct {
 	L []*RA `a:"exist" b:"exist"`
 }
 
+// T4 holds two sub-objects of different types in front of fields with rules of their own: on a small cache its entry
+// is evicted (and another type analysed) while its own field loop is still running.
+type T4 struct {
+	P    *T1    `a:"exist" b:"exist"`
+	Q    *T5    `a:"exist" b:"required|b-Q"`
+	F    string `a:"required|a-F4" b:"to=1~3|b-F4"`
+	Mail string `a:"phone|a-Mail" b:"to=3~9|b-Mail"`
+}
+
+type T5 struct {
+	K string `a:"required|a-K" b:"to=1~2|b-K"`
+	N int    `a:"ge=1" b:"le=5|b-N"`
+}
+
 var values = []interface{}{
 	&T1{F: "abc", G: 5},
 	&T2{F: "", G: 5, N: &T1{F: "abc", G: 5}},
 	&T3{F: "", L: []T1{{F: "abcdef", G: 12}}, G: 5},
 	&RA{F: "abc", B: &RB{G: 5, A: &RA{F: "abcdefg"}, L: []*RA{nil, {F: "x", B: &RB{G: 5}}}}},
+	&T4{P: &T1{F: "abc", G: 5}, Q: &T5{K: "", N: 7}, F: "", Mail: "x"},
 }
 
 type call struct {
@@ -194,10 +209,11 @@ func run(c *runner.Ctx) {
 	// direct<k>: the library's own LRU(k) handed to SetStructTypeCache as it is (no wrapper in between), so whatever
 	// the library attaches to a cache of its own type is in play; set once per process, never replaced
 	directCap := 0
+	direct := strings.HasPrefix(c.Mode, "direct")
 	fmt.Sscanf(c.Mode, "direct%d", &directCap)
-	persistent := defaultMode || directCap > 0 // one cache instance for the whole process: sequences chain
+	persistent := defaultMode || direct // one cache instance for the whole process: sequences chain
 	var d *deleg
-	if directCap > 0 {
+	if direct {
 		valid.SetStructTypeCache(valid.NewLRU(directCap))
 	} else if !defaultMode {
 		d = &deleg{inner: missCache{}}
@@ -241,13 +257,13 @@ func run(c *runner.Ctx) {
 	if defaultMode {
 		runCfgs = []cfg{{"package-default", nil, 512}}
 		depth = 3
-	} else if directCap > 0 {
+	} else if direct {
 		runCfgs = []cfg{{fmt.Sprintf("own-LRU(%d)-passed-directly", directCap), nil, directCap}}
 		depth = 3
 	}
 	for _, cf := range runCfgs {
 		sts := starts
-		if !defaultMode && (strings.HasPrefix(cf.name, "LRU(") || directCap > 0) && cf.cap >= 1 && cf.cap <= 8 {
+		if !defaultMode && (strings.HasPrefix(cf.name, "LRU(") || direct) && cf.cap >= 1 && cf.cap <= 8 {
 			for r := 1; r <= 2*cf.cap+3; r++ {
 				sts = append(sts, churn(r))
 			}
@@ -506,11 +522,11 @@ func main() {
 	runner.Main(runner.Config{
 		Property:  "C08",
 		Technique: "explicit enumeration of all call histories up to a depth x cache configurations x start states on the real code vs pure-function model (cross-configuration differential)",
-		Rule: "calls = 4 types (nested, time.Time fields, a pair of mutually recursive types) x tag names {a,b} (different rules per tag on the same fields; the value violates the a-rules on one field and the b-rules on another) x {tag rules, per-call override of the shared field}; " +
+		Rule: "calls = 5 types (nested, time.Time fields, a pair of mutually recursive types, two sub-objects of different types in front of ruled fields) x tag names {a,b} (different rules per tag on the same fields; the value violates the a-rules on one field and the b-rules on another) x {tag rules, per-call override of the shared field}; " +
 			"all sequences of length d (3 quick, 4 thorough) from 3 start states (cold, warmed under the other tag / with overrides, warmed then flushed by capacity+1 filler types) on 8 cache configurations switched in-process, plus, for the bounded LRUs of capacity 1,2,3,8, the start states churn-r (r = 1..2*capacity+3 evictions before the sequence, and 1024..1027 for the default-size LRU(512): every position of the LRU's internal map rebuild relative to the next d calls) " +
-			"and on the untouched package default and on the library's own LRU(1) / LRU(2) handed to SetStructTypeCache directly (separate worker sets, one cache instance per process so sequences chain); and every depth-3 sequence on LRU(1), LRU(2), LRU(512), sync.Map with one (thorough: one or two) of its cache loads answered with a miss although the entry is present (the answer a concurrent eviction produces); one rule-map object edited in place between successive calls, and the history (validate, register a global function for a name the type uses, validate) on every configuration; every call compared with walk(type, tag, override, value); states = (configuration, per-type last tag) ; non-trivial = a type re-validated under the other tag",
+			"and on the untouched package default and on the library's own LRU(0) / LRU(1) / LRU(2) handed to SetStructTypeCache directly (separate worker sets, one cache instance per process so sequences chain); and every depth-3 sequence on LRU(1), LRU(2), LRU(512), sync.Map with one (thorough: one or two) of its cache loads answered with a miss although the entry is present (the answer a concurrent eviction produces); one rule-map object edited in place between successive calls, and the history (validate, register a global function for a name the type uses, validate) on every configuration; every call compared with walk(type, tag, override, value); states = (configuration, per-type last tag) ; non-trivial = a type re-validated under the other tag",
 		Assumptions: []string{"walk model internal/walk", "the global cache is replaced through the public SetStructTypeCache only"},
 		Run:         run,
-		Modes:       []runner.Mode{{Name: "inproc"}, {Name: "default", Workers: 8}, {Name: "direct1", Workers: 3}, {Name: "direct2", Workers: 3}},
+		Modes:       []runner.Mode{{Name: "inproc"}, {Name: "default", Workers: 8}, {Name: "direct0", Workers: 2}, {Name: "direct1", Workers: 3}, {Name: "direct2", Workers: 3}},
 	})
 }
